@@ -104,6 +104,30 @@ def dispatch(E, c, tc, args):
                 return VSeq([VStruct("()", [VRef(r.cell, r.path + (("field", k), ("field", 0))), VRef(r.cell, r.path + (("field", k), ("field", 1)))]) for k in range(n)], "iter")
             idx = 0 if meth == "keys" else 1
             return VSeq([VRef(r.cell, r.path + (("field", k), ("field", idx))) for k in range(n)], "iter")
+    m3 = re.search(r"(?:^|::)(BTreeMap|HashMap|LinkedHashMap)::<.*>::(insert|get|contains_key|new)$", c, re.S)
+    if m3:
+        meth = m3.group(2)
+        if meth == "new" and not args:
+            return VSeq([], "map")
+        r = ref_chain(E, args[0]) if args and isinstance(args[0], VRef) else None
+        d = E.read_ref(r) if r is not None else None
+        if isinstance(d, VSeq) and d.kind == "map":
+            kid = str(E.as_u(args[1]))
+            pos = None
+            for k, it in enumerate(d.items):
+                if str(E.as_u(it.fields[0])) == kid:
+                    pos = k
+            if meth == "insert":
+                if pos is None:
+                    d.items.append(VStruct("()", [args[1], args[2]]))
+                    return NONE()
+                old = d.items[pos].fields[1]
+                d.items[pos].fields[1] = args[2]
+                return some(old)
+            if meth == "contains_key":
+                return VBool(pos is not None)
+            if meth == "get":
+                return some(VRef(r.cell, r.path + (("field", pos), ("field", 1)))) if pos is not None else NONE()
     if tc and tc[1] and tc[1].startswith("Index<") and tc[2] == "index":
         r = ref_chain(E, args[0])
         d = E.read_ref(r)
@@ -194,6 +218,37 @@ def dispatch(E, c, tc, args):
                     if r.variant == "Some":
                         keep.append(r.fields[0])
                 return VSeq(keep, "iter")
+            if meth in ("find_map", "find", "position"):
+                for k, x in enumerate(rest):
+                    if meth == "find_map":
+                        r = E.force_arg(E.call_value(args[1], [x]))
+                        if r.variant == "Some":
+                            it.pos += k + 1
+                            return r
+                    else:
+                        b = E.call_value(args[1], [VRef(Cell(x, "find_item"))] if meth == "find" else [x])
+                        if E.choose([b.t, z3.Not(b.t)], meth) == 0:
+                            it.pos += k + 1
+                            return some(x) if meth == "find" else some(VInt(k, "usize"))
+                it.pos = len(it.items)
+                return NONE()
+            if meth == "flat_map":
+                out = []
+                for x in rest:
+                    sub = E.call_value(args[1], [x])
+                    subv = deref(E, sub)
+                    if isinstance(subv, VSeq):
+                        if subv.kind == "map" and isinstance(sub, VRef):
+                            rr = ref_chain(E, sub)
+                            out += [VStruct("()", [VRef(rr.cell, rr.path + (("field", k), ("field", 0))), VRef(rr.cell, rr.path + (("field", k), ("field", 1)))]) for k in range(len(subv.items))]
+                        elif isinstance(sub, VRef):
+                            rr = ref_chain(E, sub)
+                            out += [VRef(rr.cell, rr.path + (("field", k),)) for k in range(len(subv.items))]
+                        else:
+                            out += list(subv.items[subv.pos:])
+                    else:
+                        raise Unsupported("flat_map over %r" % (subv,))
+                return VSeq(out, "iter")
             if meth == "sum":
                 acc = None
                 for x in rest:
